@@ -138,7 +138,9 @@ class BaseCollection(BaseDisplayRepr):
     @property
     def children(self):
         """An ordered list of top level child objects."""
-        return self._children
+        # a copy: changing the returned list in place (e.g. `coll.children += [obj]`) must not
+        # change the collection behind the back of the setter
+        return list(self._children)
 
     @children.setter
     def children(self, children):
@@ -154,7 +156,9 @@ class BaseCollection(BaseDisplayRepr):
     @property
     def sources(self):
         """An ordered list of top level source objects."""
-        return self._sources
+        # a copy: changing the returned list in place (e.g. `coll.sources += [obj]`) must not
+        # change the collection behind the back of the setter
+        return list(self._sources)
 
     @sources.setter
     def sources(self, sources):
@@ -171,7 +175,9 @@ class BaseCollection(BaseDisplayRepr):
     @property
     def sensors(self):
         """An ordered list of top level sensor objects."""
-        return self._sensors
+        # a copy: changing the returned list in place (e.g. `coll.sensors += [obj]`) must not
+        # change the collection behind the back of the setter
+        return list(self._sensors)
 
     @sensors.setter
     def sensors(self, sensors):
@@ -188,7 +194,9 @@ class BaseCollection(BaseDisplayRepr):
     @property
     def collections(self):
         """An ordered list of top level collection objects."""
-        return self._collections
+        # a copy: changing the returned list in place (e.g. `coll.collections += [obj]`) must not
+        # change the collection behind the back of the setter
+        return list(self._collections)
 
     @collections.setter
     def collections(self, collections):
